@@ -21,6 +21,7 @@ structure NodeS where
   peers : List PeerS := []
   pending : List String := []
   pendingStage : List (String × Nat) := []     -- handshake stage of each pending attempt (2 = awaiting pong, 3 = awaiting peng)
+  pendingRetries : List (String × Nat) := []   -- retransmissions so far of each pending attempt
   own : List String := []
   next : Int := 0
   rc : List (String × Nat × Nat × Int) := []
@@ -58,6 +59,8 @@ def parseNodeS (s : String) : NodeS :=
   let peers := if peersSec = "" then [] else (peersSec.splitOn "};").filterMap parsePeerS
   let pending := if pendSec = "" then [] else (pendSec.splitOn "};").map (fun e => (e.splitOn "{").headD "")
   let pendingStage := if pendSec = "" then [] else (pendSec.splitOn "};").map (fun e => ((e.splitOn "{").headD "", (between e "init=" "/").toNat?.getD 0))
+  let pendingRetries := if pendSec = "" then [] else (pendSec.splitOn "};").map (fun e =>
+    ((e.splitOn "{").headD "", (((between e "init=" ",").splitOn "/").getD 1 "").toNat?.getD 0))
   let rc := if rcSec = "" then [] else (rcSec.splitOn ";").filterMap (fun e =>
     match e.splitOn "/" with
     | [a, tr, to, nx] => some (a, tr.toNat?.getD 0, to.toNat?.getD 0, nx.toInt?.getD 0)
@@ -79,7 +82,7 @@ def parseNodeS (s : String) : NodeS :=
       | [ad, p] => (Bytes.ofHex ad).map (fun ad => (ad, p, t.toInt?.getD 0))
       | _ => none
     | _ => none)
-  { id := between s "id=" " peers=[", peers, pending, pendingStage, own := if ownSec = "" then [] else ownSec.splitOn ",", next, rc,
+  { id := between s "id=" " peers=[", peers, pending, pendingStage, pendingRetries, own := if ownSec = "" then [] else ownSec.splitOn ",", next, rc,
     dropIn := di, dropOut := dout, claims, cache, raw := s }
 
 /-- state string without the drop counters (for "left no state behind") -/
@@ -402,7 +405,7 @@ def nodeRefStep (r : NRef) (t : List String) (obs : String) : NRef × String :=
   | "nnode" :: port :: fs =>
     let p := port.toNat?.getD 0
     let n := parseNodeS obs
-    ({ (r.setNode p n) with cfg := r.cfg ++ [(p, fs)] }, "-")
+    ({ (r.setNode p n) with cfg := (r.cfg.filter (·.1 ≠ p)) ++ [(p, fs)] }, "-")
   | ["nrestart", port] =>
     let p := port.toNat?.getD 0
     (r.setNode p (parseNodeS obs), "-")
@@ -465,6 +468,10 @@ def nodeRefStep (r : NRef) (t : List String) (obs : String) : NRef × String :=
         | none =>
           -- C15: silent peers are gone, with their routes
           if after.peers.any (fun q => q.timeout < r.now) then some "C15 a peer whose timeout has passed survived housekeeping"
+          -- C05: an attempt that has used up its retry budget is given up at the next tick ("handshake retry horizon"); nothing of it stays behind
+          else if before.pendingRetries.any (fun (a, k) => k ≥ Generated.MAX_FAILED_RETRIES &&
+              after.pendingRetries.any (fun (a', k') => a' = a && k' ≥ Generated.MAX_FAILED_RETRIES)) then
+            some "C05 a handshake attempt that has used up its retry budget was not given up"
           -- C09 / C15: housekeeping removes a ready peer only when its timeout has passed (a handshake attempt that is given up takes only itself away)
           else if before.peers.any (fun q => q.ready && q.timeout ≥ r.now && !(after.peers.any (fun q' => q'.addr = q.addr))) then
             some s!"C09/C15 housekeeping removed a connected peer whose timeout has not passed ({(before.peers.filter (fun q => q.ready && q.timeout ≥ r.now && !(after.peers.any (fun q' => q'.addr = q.addr)))).map (·.addr)})"
